@@ -76,7 +76,7 @@ def render(st):
             f"lin?={1 if st['is_linear'] else 0};bvt={st.get('bvt', '-')}")
 
 
-CQM_STEPPED = ({'kadd', 'krm', 'kassign', 'kswap', 'crv', 'cfx', 'csv', 'cslb', 'csup', 'csvt'}
+CQM_STEPPED = ({'kadd', 'krm', 'kassign', 'kswap', 'crv', 'cfx', 'csv', 'cslb', 'csup', 'csvt', 'ccv'}
                | {p + e for p in 'ok' for e in ('al', 'sl', 'aq', 'ri', 'rv', 'sv')})
 
 
